@@ -141,6 +141,59 @@ def search(res, tier, boost=False):
             continue
         for b in oracle_mesh(pm.mesh, X, T, glue, check_nbrs=False)[:2]:
             res.violation('C02:' + b.split(':')[0] + ':deep', dict(clause=b, history=hist))
+    # meshes built by MeshParametrized on the shipped curves (its constructor refines closed curves with fewer than three
+    # pieces before handing the mesh out): bookkeeping after every operation of random histories - the leaf collection is
+    # exactly the set of childless elements, element indices are unique (leaves and the whole tree), levels / parent
+    # chain / intervals consistent, the leaves tile the cylinder (binary64 arithmetic of the bisections is exact)
+    from src.mesh import MeshParametrized
+    import src.parametrization as P
+    from ..meshlib import all_elements
+    from fractions import Fraction as Fr
+    curves = ['Circle', 'UnitSquare', 'LShape', 'UnitInterval', 'PiSquare']
+    for h in range((5 if tier == 'quick' else 30) * (2 if boost else 1)):
+        cname = curves[h % len(curves)]
+        Tg = rng.choice([[0., 1.], [0., 0.5, 1.], [0., 0.25, 1.]])
+        import contextlib, io
+        with contextlib.redirect_stdout(io.StringIO()):
+            mesh = MeshParametrized(getattr(P, cname)(), initial_time_mesh=list(Tg))
+        pm = PyMesh(mesh)
+        ops = []
+        for k in range(rng.randint(3, 14)):
+            if len(mesh.leaf_elements) > 120:
+                break
+            op = random_op(rng, pm, [rng.choice(['rt', 'rs', 'rb', 'rs', 'rt'])], rng.choice([0.2, 0.5, 0.8]))
+            ops.append(op)
+            hist = dict(curve=cname, initial_time_mesh=Tg, ops=[op_json(o) for o in ops], constructor='MeshParametrized')
+            out = pm.apply(op)
+            res.count(('param-hist', cname, h, k, res.seed), True)
+            if out.startswith('err'):
+                res.violation('C02:operation-raises:%s:parametrized' % op[0], dict(history=hist))
+                break
+            leaves = list(mesh.leaf_elements)
+            tree = all_elements(mesh)
+            bad = None
+            ids = [e.glob_idx for e in leaves]
+            if len(set(ids)) != len(ids):
+                dup = sorted(i for i in set(ids) if ids.count(i) > 1)
+                bad = 'index: glob_idx %r is carried by several leaves' % dup[:3]
+            elif len(set(e.glob_idx for e in tree)) != len(tree):
+                bad = 'index: a glob_idx is carried by several elements of the refinement tree'
+            elif set(map(id, leaves)) != set(id(e) for e in tree if not e.children):
+                bad = 'leaves: leaf_elements is not the set of childless elements'
+            else:
+                for e in tree:
+                    for c in e.children:
+                        if c.parent is not e:
+                            bad = 'tree: child %r does not point back to its parent' % c
+                    if e.children and len(e.children) != 2:
+                        bad = 'tree: %r has %d children' % (e, len(e.children))
+                area = sum((Fr(e.time_interval[1]) - Fr(e.time_interval[0])) * (Fr(e.space_interval[1]) - Fr(e.space_interval[0])) for e in leaves)
+                total = (Fr(Tg[-1]) - Fr(Tg[0])) * Fr(float(mesh.gamma_space.gamma_length))
+                if bad is None and area != total:
+                    bad = 'tiling: leaf areas sum to %s, cylinder has %s' % (float(area), float(total))
+            if bad:
+                res.violation('C02:%s:parametrized' % bad.split(':')[0], dict(clause=bad, history=hist))
+                break
     n = (6 if tier == 'quick' else 60) * (4 if boost else 1)
     for h in range(n):
         glue, X, T = INITIAL_GRIDS[rng.randrange(len(INITIAL_GRIDS))]
